@@ -327,8 +327,8 @@ def L4(ctx):
 
 
 def run(ctx):
-    g_state.run_all(ctx, ["S2", "S3", "S5", "S7", "D2"])
-    g_sync.run_all(ctx, ["Y1:mutex,rwlock"])
+    g_state.run_all(ctx, ["S2", "S3", "S5", "S7", "S9", "D2"])
+    g_sync.run_all(ctx, ["Y1:mutex,rwlock", "Y1c"])
     L1(ctx)
     L2(ctx)
     L3(ctx)
